@@ -383,6 +383,11 @@ pub fn eval_case(prop: &str, case: &Case, oracles: &[Oracle], st: &mut Stats, de
     }
     return;
   }
+  if let Some(ll) = &real.livelock {
+    // a producer loop that spins on a subscription that has ended (C06 / C07); reported wherever it is seen
+    st.add_finding(format!("{}/livelock-producer-keeps-spinning", locus(p)), ll.clone(), case.show());
+    return;
+  }
   if let Some(pn) = &real.panic {
     st.add_finding(format!("{}/panic", locus(p)), pn.clone(), case.show());
     return;
